@@ -336,7 +336,7 @@ type expect struct {
 	Nest  bool // an acceptable site has a path prefix below the root
 }
 
-var reqPaths = []string{"/", "/x", "/xz", "/x/", "/x/y", "/x/y/z", "/xy", "/X", "/%78", "/y?p=/x/y"}
+var reqPaths = []string{"/", "/x", "/xz", "/x/", "/x/y", "/x/y/z", "/xy", "/X", "/%78", "/%78/%79", "/x%2Fy", "/y?p=/x/y"}
 
 func concretise(h string) string { return strings.ReplaceAll(h, "*", "q") }
 
@@ -395,7 +395,11 @@ func buildBattery(s *siteSet) {
 			}
 			raw, dec := decodePath(p)
 			rs := reqSpec{Kind: "origin", Host: host, Target: p, Alts: []alt{{host, dec}}}
-			if raw != dec {
+			// A percent-encoded UNRESERVED character is equivalent to the literal
+			// (RFC 3986 2.3): "/%78" is the request path "/x" and nothing else.
+			// Only for an encoded reserved character (here the slash) is the raw
+			// reading accepted as well.
+			if raw != dec && strings.Contains(strings.ToUpper(raw), "%2F") {
 				rs.Alts = append(rs.Alts, alt{host, raw})
 			}
 			s.reqs = append(s.reqs, rs)
@@ -1167,7 +1171,7 @@ func run(c *lib.Ctx) {
 
 	c.Exhaustive(false)
 	c.Assume("designated FallbackSite sites cannot be produced from a Casketfile with the standard directives; only the built-in catch-all spellings ('', 0.0.0.0, [::]) are exercised")
-	c.Assume("the request's path is the percent-decoded path of the request-target; for targets whose raw and decoded form differ either reading is accepted")
+	c.Assume("the request's path is the percent-decoded path of the request-target; percent-encoded unreserved characters are equivalent to the literal (RFC 3986 2.3); only for an encoded slash (%2F) is the raw reading accepted as well")
 	c.Assume("for absolute-form request-targets either the URI host or the Host header is accepted as the request's Host")
 	c.Assume("when different catch-all spellings coexist on a listener any of them may answer (the statement does not rank them)")
 	c.Assume("a site's handlers ran iff casket's header directive of that site added its marker or the innermost verifprobe directive was reached")
